@@ -397,7 +397,16 @@ where
     permuted_input_expression.sort();
 
     // A HashMap of each unique element in the table expression and its count
+    #[cfg(not(midnight_zk_verif))]
     let mut leftover_table_map = HashMap::<F, u32>::with_capacity(table_expression.len());
+    // (verification hook: a fixed hasher, so that the order in which leftover table
+    // elements are placed - any order is valid - does not vary from process to process)
+    #[cfg(midnight_zk_verif)]
+    let mut leftover_table_map = HashMap::<
+        F,
+        u32,
+        std::hash::BuildHasherDefault<std::collections::hash_map::DefaultHasher>,
+    >::with_capacity_and_hasher(table_expression.len(), Default::default());
     table_expression.iter().take(usable_rows).for_each(|coeff| {
         *leftover_table_map.entry(*coeff).or_insert(0) += 1;
     });
